@@ -78,11 +78,8 @@ func TestC10(t *testing.T) {
 	)
 
 	if os.Getenv("VERIF_RACE") == "1" {
-		composition(r, 6)
-		return
-	}
-	if os.Getenv("C10_ONLY") == "swarm" {
-		composition(r, r.Pick(150, 6000))
+		// race pass: only the concurrent workload (real swarms, gater consulted from many goroutines)
+		composition(r, 40)
 		return
 	}
 	functionLevel(r)
@@ -92,6 +89,7 @@ func TestC10(t *testing.T) {
 	datastoreErrors(r)
 	loadErrors(r)
 	composition(r, r.Pick(150, 6000))
+	hostWiring(r)
 
 	r.Require("fn.must_refuse.addr", 1000)
 	r.Require("fn.must_refuse.subnet", 1000)
@@ -428,9 +426,10 @@ func loadErrors(r *run.R) {
 			}
 		}
 		img := rec.snapshot()
-		for j := 0; j < 4; j++ {
+		for jj := 0; jj < 8; jj++ {
+			j := jj / 2
 			d := fromImage(img)
-			d.failQuery = j
+			d.failQuery, d.failQueryMid = j, jj%2 == 1
 			r.Eval(1)
 			ng, err := conngater.NewBasicConnectionGater(d)
 			st := stats{}
@@ -445,8 +444,8 @@ func loadErrors(r *run.R) {
 				st.add("query_index_not_reached", 1)
 			}
 			if dis := compare(ng, m, nil, u, "loaderr", j, st); dis != nil {
-				r.Violation(dis.Sig, caseID, fmt.Sprintf("load query %d failed, constructor returned no error: %s | history: %s", j, dis.Msg, h),
-					map[string]any{"history": h, "text": h.String(), "failed_query": j, "disagreement": dis})
+				r.Violation(dis.Sig, caseID, fmt.Sprintf("load query %d failed (error among results: %v), constructor returned no error: %s | history: %s", j, d.failQueryMid, dis.Msg, h),
+					map[string]any{"history": h, "text": h.String(), "failed_query": j, "error_among_results": d.failQueryMid, "disagreement": dis})
 			}
 			a.merge(st)
 		}
